@@ -679,6 +679,26 @@ func (fr *Frame) loopHead(li *loopInfo, st *State, reach Term) *State {
 		env.at = b
 		hs = fr.pinUnchanged(env, inv.Expr, hs)
 	}
+	if os.Getenv("GOVC_DEBUG") != "" {
+		fmt.Printf("debug loopHead %d isolated=%v bodyStart=%d assertStart=%d now=%d\n", li.ordinal, li.spec.Isolated, fr.rootFrame().bodyStart, li.assertStart, len(fr.ctx.asserts))
+		for k, a := range fr.ctx.asserts {
+			if strings.Contains(a.comment, "sort.Sort") {
+				fmt.Printf("debug   assert %d hideAfter=%d %s\n", k, a.hideAfter, a.comment)
+			}
+		}
+	}
+	if li.spec.Isolated {
+		// the loop is reasoned about from its invariants alone: quantified facts stated earlier in the body
+		// (callee postconditions, lemmas) are not shown to obligations from here on (fewer hypotheses: sound)
+		idx := len(fr.ctx.asserts)
+		for k := fr.rootFrame().bodyStart; k < li.assertStart; k++ {
+			t := fr.ctx.asserts[k].term
+			if (strings.Contains(t, "(forall ") || strings.Contains(t, "(exists ")) && fr.ctx.asserts[k].hideAfter == 0 {
+				fr.ctx.asserts[k].hideAfter = idx
+			}
+		}
+		fr.ctx.cuts = append(fr.ctx.cuts, idx)
+	}
 	li.headState = hs
 	return hs
 }
@@ -744,7 +764,7 @@ func (fr *Frame) loopExitCut(li *loopInfo, b *ssa.BasicBlock, st *State, reach T
 	// (everything said since the function body started: the cut's exit clauses are all that is kept of it)
 	for k := fr.rootFrame().bodyStart; k < cutIdx; k++ {
 		t := fr.ctx.asserts[k].term
-		if strings.Contains(t, "(forall ") || strings.Contains(t, "(exists ") {
+		if (strings.Contains(t, "(forall ") || strings.Contains(t, "(exists ")) && fr.ctx.asserts[k].hideAfter == 0 {
 			fr.ctx.asserts[k].hideAfter = cutIdx
 		}
 	}
